@@ -51,6 +51,11 @@ type StreamManager struct {
 	Metrics *Metrics
 
 	wg sync.WaitGroup
+	// running tells whether Run is waiting on wg: it is released exactly once, by whoever comes first -
+	// Stop, or Run itself when the first connection fails (Stop may be called while that attempt is
+	// still under way, and more than once).
+	running bool
+	mu      sync.Mutex
 }
 
 type PostConnect func(c Sender)
@@ -95,9 +100,12 @@ func (sm *StreamManager) Run() error {
 	}
 	sm.client.SetHandler(handler)
 
+	sm.mu.Lock()
+	sm.running = true
 	sm.wg.Add(1)
+	sm.mu.Unlock()
 	if err := sm.connect(); err != nil {
-		sm.wg.Done()
+		sm.release()
 		return err
 	}
 	sm.wg.Wait()
@@ -109,7 +117,17 @@ func (sm *StreamManager) Stop() {
 	// Remove on disconnect handler to avoid triggering reconnect
 	sm.client.SetHandler(nil)
 	sm.client.Disconnect()
-	sm.wg.Done()
+	sm.release()
+}
+
+// release lets Run return, once.
+func (sm *StreamManager) release() {
+	sm.mu.Lock()
+	if sm.running {
+		sm.running = false
+		sm.wg.Done()
+	}
+	sm.mu.Unlock()
 }
 
 func (sm *StreamManager) connect() error {
